@@ -296,6 +296,9 @@ def make_cfg(rng, quick):
         # keep the block counting space small in the quick tier
         p = max(cfg['n'], key=lambda q: cfg['n'][q])
         cfg['n'][p] -= 1
+    # a Coalescent with its own start time: accumulation and cdf are still taken from time 0 - for one time as for many
+    if (sum(cfg['n'].values()) + len(cfg['epochs']) + int(cfg['epochs'][0]['sizes'][list(cfg['n'])[0]] * 8)) % 4 == 0:
+        cfg['start_time'] = [0.25, 0.5, 1.0][len(cfg['epochs']) % 3]
     return cfg
 
 
